@@ -8,6 +8,8 @@ import traceback
 from . import mir
 
 VERIF = os.path.dirname(os.path.dirname(os.path.abspath(__file__)))
+# the self-test runs checks against scratch copies in parallel; their evidence goes elsewhere
+EVID = os.environ.get("VERIF_EVIDENCE") or os.path.join(VERIF, "evidence")
 
 
 def load_known():
@@ -103,7 +105,7 @@ class Check:
 
     # -- finishing ------------------------------------------------------------------------------------
     def finish(self):
-        vdir = os.path.join(VERIF, "evidence", "violations", self.pid)
+        vdir = os.path.join(EVID, "violations", self.pid)
         os.makedirs(vdir, exist_ok=True)
         for f in os.listdir(vdir):
             try:
@@ -175,8 +177,8 @@ class Check:
             "violations": len(violations),
         }
         ev["coverage"].update(self.extra)
-        os.makedirs(os.path.join(VERIF, "evidence"), exist_ok=True)
-        p = os.path.join(VERIF, "evidence", "%s.json" % self.pid)
+        os.makedirs(EVID, exist_ok=True)
+        p = os.path.join(EVID, "%s.json" % self.pid)
         tmp = p + ".tmp%d" % os.getpid()
         with open(tmp, "w") as fh:
             json.dump(ev, fh, indent=1)
